@@ -88,12 +88,22 @@ class Impl:
                 self.regs[i] = self.Register(f"R{i}", self.Both)
         self.hw._registers = {r.name: r for r in self.regs.values()}
 
-    def render(self, res: str) -> str:
-        calls = "-" if not self.calls else " ".join(
-            f"{l}[{_sl(map(str, rs))}|{_sl(map(_sv, vs))}]" for l, rs, vs in self.calls)
+    def render(self, res: str, dup: bool = False) -> str:
+        """result, per-layer sequence of delivered (register, value) pairs (whatever calls carried them; `~` for a
+        batch naming a register twice), per-layer memory.  Read calls are not rendered: the property does not say
+        how the layers are to be asked."""
+        if dup:
+            wlog = "~"
+        else:
+            per = []
+            for l in range(NLAYER):
+                ps = [(r, v) for (cl, rs, vs) in self.calls if cl == l for r, v in zip(rs, vs)]
+                if ps:
+                    per.append(f"{l}[" + ",".join(f"{r}={_sv(v)}" for r, v in ps) + "]")
+            wlog = " ".join(per) or "-"
         cells = [f"{l.idx}.{i}={_sv(l.mem[f'R{i}'])}" for l in self.layers for i in range(NREG)
                  if l.mem.get(f"R{i}") is not None]
-        return f"{res}\tcalls={calls}\tmem={_sl(cells)}"
+        return f"{res}\twlog={wlog}\tmem={_sl(cells)}"
 
     def op(self, line: str) -> str:
         f = line.split("\t")
@@ -108,15 +118,24 @@ class Impl:
         if k == "poke":
             self.layers[int(f[1])].mem[f"R{int(f[2])}"] = _v(f[3])
             return "ok"
+        dup = False
         try:
             if k == "read":
                 out = [self.hw.read(self.regs[int(f[1])])]
             elif k == "readb":
                 out = self.hw.read_batch([self.regs[int(x)] for x in _lst(f[1])])
+            elif k == "readbg":      # generator-typed argument (`registers: Iterable[Register]`)
+                out = self.hw.read_batch(self.regs[int(x)] for x in _lst(f[1]))
             elif k == "write":
                 out = self.hw.write(_v(f[1]), self.regs[int(f[2])])
-            elif k == "writeb":
-                out = self.hw.write_batch([_v(x) for x in _lst(f[1])], [self.regs[int(x)] for x in _lst(f[2])])
+            elif k in ("writeb", "writebg"):
+                rids = [int(x) for x in _lst(f[2])]
+                n = min(len(rids), len(_lst(f[1])))
+                dup = len(set(rids[:n])) != n
+                if k == "writeb":
+                    out = self.hw.write_batch([_v(x) for x in _lst(f[1])], [self.regs[r] for r in rids])
+                else:
+                    out = self.hw.write_batch((_v(x) for x in _lst(f[1])), (self.regs[r] for r in rids))
             else:
                 return "bad-op"
             res = "unit" if out is None else "vals:" + _sl(map(_sv, out))
@@ -126,7 +145,7 @@ class Impl:
             res = "raise:Key"
         except Exception as e:
             res = f"raise:{type(e).__name__}"
-        return self.render(res)
+        return self.render(res, dup)
 
 
 def run_impl(lines: list[str], observe=None) -> list[str]:
